@@ -240,8 +240,73 @@ def ecore_level(ctx):
                         f'eGet(name), eType is int, eGet(instanceClassName), attribute) = {got}', {'how': how})
 
 
+def mixed_pass(ctx):
+    """static classes (both styles) that inherit from a *dynamic* EClass, and dynamic classes below them: the metamodel
+    views list own plus inherited declarations, the content views see the children held through inherited containments"""
+    from pyecore import ecore as E
+    for k in range(12 if ctx.quick() else 150):
+        rng = common.sub_rng(ctx.seed, 'C19', 'mixed', k)
+        Node = E.EClass('Node')
+        name = E.EAttribute('name', E.EString)
+        kids = E.EReference('kids', Node, upper=-1, containment=True)
+        one = E.EReference('one', Node, containment=True)
+        peer = E.EReference('peer', Node)
+        base_feats = [name, kids] + [f for f in (one, peer) if rng.random() < .6]
+        Node.eStructuralFeatures.extend(base_feats)
+        if rng.random() < .5:
+            class Sub(Node, metaclass=E.MetaEClass):
+                quota = E.EAttribute(eType=E.EInt)
+            style = 'metaclass'
+        else:
+            @E.EMetaclass
+            class Sub(Node):
+                quota = E.EAttribute(eType=E.EInt)
+            style = 'decorator'
+        Leaf = E.EClass('Leaf', superclass=(Sub.eClass,)) if rng.random() < .5 else None
+        for cls in [Sub.eClass] + ([Leaf] if Leaf is not None else []):
+            own = list(cls.eStructuralFeatures)
+            want = set(base_feats) | set(Sub.eClass.eStructuralFeatures) | set(own)
+            ctx.evaluations += 1
+            ctx.count(f'mixed/{style}')
+            ctx.nontriv(('mixed', k, cls.name))
+            probs = []
+            if Node not in cls.eAllSuperTypes():
+                probs.append('eAllSuperTypes() lacks the dynamic base')
+            if set(cls.eAllStructuralFeatures()) != want:
+                probs.append(f'eAllStructuralFeatures() is {sorted(f.name for f in cls.eAllStructuralFeatures())}, declarations say {sorted(f.name for f in want)}')
+            if set(cls.eAllAttributes()) != {f for f in want if isinstance(f, E.EAttribute)}:
+                probs.append('eAllAttributes() differs from the declared attributes')
+            if set(cls.eAllReferences()) != {f for f in want if isinstance(f, E.EReference)}:
+                probs.append('eAllReferences() differs from the declared references')
+            if cls.findEStructuralFeature('kids') is not kids or cls.findEStructuralFeature('quota') is None:
+                probs.append('findEStructuralFeature misses an inherited or own feature')
+            inst = cls()
+            a, b, c = Node(name='a'), Node(name='b'), Node(name='c')
+            inst.kids.extend([a, b])
+            a.kids.append(c)
+            held = [a, b]
+            if one in base_feats:
+                d = Node(name='d')
+                inst.one = d
+                held.append(d)
+            if sorted(map(id, inst.eContents)) != sorted(map(id, held)):
+                probs.append(f'eContents lists {len(inst.eContents)} of {len(held)} children')
+            if sorted(map(id, inst.eAllContents())) != sorted(map(id, held + [c])):
+                probs.append('eAllContents differs from the contained objects')
+            if c.eRoot() is not inst or a.eContainer() is not inst:
+                probs.append('eRoot / eContainer of a child do not lead to the instance')
+            if inst.eGet('name') is not inst.name or inst.eGet(kids) is not inst.kids:
+                probs.append('eGet by name / by feature and attribute syntax disagree')
+            if probs:
+                ctx.violate({'clause': 'views-of-mixed-hierarchy', 'style': style},
+                            f'{cls.name} ({"static " + style if cls is Sub.eClass else "dynamic, below a static " + style + " class"}, on a dynamic base): ' + '; '.join(probs[:3]),
+                            {'mixed': k, 'style': style})
+                return
+
+
 def run(ctx):
     common.use_repo()
+    mixed_pass(ctx)
     n = 200 if ctx.quick() else 3000
     nops = 25 if ctx.quick() else 40
     ctx.rule = (f'{n} histories (<= {nops} ops) over containment-centred and random metamodels; after every call, for every object: '
